@@ -522,7 +522,41 @@ def _borrowed(modname, fname):
 BORROWED = [_borrowed("c01", "r3_ws_reply_once"), _borrowed("c19", "r6_proxy_rewrites_only_what_it_proxies")]
 
 
-RULES = [r1_gate_before_work, r2_classifier_agreement, r3_append_discipline, r4_nothing_outside_array, r5_append_writes_every_entry, r6_batch_container_is_inert, r7_notifications_run_nothing, r8_entries_are_decoded_like_single_messages, r9_only_the_response_limit_refuses_a_reply, rcfg_config_verbatim] + BORROWED
+def r10_single_and_entry_decoders_are_twins(ctx):
+    """a batch entry is classified exactly as the same text sent alone: the decoder used for a single message
+    (deserialize_with_ext::{call,notif}::from_slice) and the one used for a batch entry (::from_str) do the same things -
+    the same calls, up to the slice/str spelling of the serde_json entry point. An extra check in one of the twins (reject
+    a notification that carries an `id` member - for single messages only) answers an object alone and swallows it, or
+    answers it differently, inside a batch."""
+    F, R = ctx.F, ctx.R
+    n = 0
+
+    def norm(b):
+        out = []
+        for x in F.nested(b):
+            for c in x.calls:
+                nm = c.name() or ""
+                nm = re.sub(r"from_(slice|str)\b", "from_X", nm)
+                nm = re.sub(r"<(SliceRead|StrRead)<'\w+>>", "<R>", nm)
+                out.append(nm)
+        return sorted(out)
+
+    for kind in ("call", "notif"):
+        a = F.find(r"^jsonrpsee_server::utils::deserialize_with_ext::%s::from_slice$" % kind)
+        b = F.find(r"^jsonrpsee_server::utils::deserialize_with_ext::%s::from_str$" % kind)
+        if len(a) != 1 or len(b) != 1:
+            continue
+        n += 1
+        R.fn(a[0])
+        R.fn(b[0])
+        na, nb = norm(a[0]), norm(b[0])
+        only_a = sorted(set(na) - set(nb))
+        only_b = sorted(set(nb) - set(na))
+        R.check(na == nb, "C02.R10", "%s:from_slice~from_str" % kind, "the single-message and the batch-entry %s decoder do the same things" % kind, "deserialize_with_ext::%s::from_slice (single messages) and ::from_str (batch entries) differ (only in from_slice: %s; only in from_str: %s): the same text is classified differently alone and as a batch entry" % (kind, [short(x) for x in only_a][:4], [short(x) for x in only_b][:4]), "%s:%d" % (a[0].file, a[0].lo))
+    R.extra["C02.R10.pairs"] = n
+
+
+RULES = [r10_single_and_entry_decoders_are_twins, r1_gate_before_work, r2_classifier_agreement, r3_append_discipline, r4_nothing_outside_array, r5_append_writes_every_entry, r6_batch_container_is_inert, r7_notifications_run_nothing, r8_entries_are_decoded_like_single_messages, r9_only_the_response_limit_refuses_a_reply, rcfg_config_verbatim] + BORROWED
 
 LEVEL_TEXT = (
     "Structural necessary conditions of batch handling decided from the type-checked program: the gates that must precede "
